@@ -148,6 +148,18 @@ def extra_frames(inst, rng):
         out.append(("unknown_ext", C.frame(p, 0xB0, 0x90, 9, 0x1F, [0xFF, 0x55, 1, 2])))
         out.append(("unknown_sub", C.frame(p, 0xB0, 0x80, 9, 0xC0, [0x77, 0, 0, 2, 0, 0, 0, 0, 9, 9])))
         out.append(("foreign", C.frame(p, 0xB7, 0x80, 9, 0xC0, [0x22, 0, 0, 0, 0, 4, 0, 1, 0x21, 0xFF, 0, 0xFF])))
+    # another client's requests, relayed by the console: addressed elsewhere (to # 0xB0) whatever
+    # the sender; only request forms that cannot be read as an (empty) answer
+    reqs = [("ver", 0x1F, [0xFF, 0x30]), ("abil", 0x1F, [0xFF, 0x11]), ("abil1", 0x1F, [0xFF, 0x11, 0])]
+    if p == "at4":
+        reqs += [("names", 0x1F, [0xFF, 0x12]), ("names1", 0x1F, [0xFF, 0x12, 1])]
+    else:
+        reqs += [("names", 0x1F, [0xFF, 0x13]), ("names1", 0x1F, [0xFF, 0x13, 1]),
+                 ("zst", 0xC0, [0x21, 0, 0, 0, 0, 0, 0, 0]), ("acst", 0xC0, [0x23, 0, 0, 0, 0, 0, 0, 0])]
+    for name, typ, pl in reqs:
+        to = rng.choice([0xB1, 0xB5, 0xB7, 0x80])
+        frm = rng.choice([0x90 if typ == 0x1F else 0x80, 0xB0, 0xB3])
+        out.append((f"foreign_req_{name}", C.frame(p, to, frm, rng.randrange(256), typ, pl)))
     for k in range(6):
         out.append((f"dup{k}", ans[k]))
     return out
@@ -223,6 +235,24 @@ def c08_script(seed, proto):
     inst["version"] = (False, inst["version"][1])
     b = ClientBuilder(proto, rng)
     b.preamble()
+    base = 0
+    session = 1
+    if rng.random() < 0.3:
+        # an earlier monitoring session on the same object: init, zero or more answered beats, shutdown;
+        # the second session is judged exactly like a first one, counted from its own start
+        b.init(inst, snapshot=False)
+        b.op(op="auto", how="ok")
+        n0 = rng.randrange(0, 3)
+        for j in range(n0):
+            b.op(op="advance", to=300000 * j + 125)
+            b.op(op="feed", b=version_frame(proto, pid=rng.randrange(256)), tag="hb_response")
+            b.op(op="quiesce")
+        base = 300000 * max(0, n0 - 1) + rng.choice([1000, 150000, 250000])
+        b.op(op="advance", to=base)
+        b.op(op="auto", how="")
+        b.shutdown()
+        base += 10000
+        session = 2
     b.init(inst, snapshot=False)
     b.op(op="auto", how="ok")
     if rng.random() < 0.2:
@@ -230,29 +260,29 @@ def c08_script(seed, proto):
         # nothing is answered; the watchdog must still reset the link at its deadline
         k = rng.randrange(0, 3)
         for j in range(k + 1):
-            b.op(op="advance", to=300000 * j + 125)
+            b.op(op="advance", to=base + 300000 * j + 125)
             b.op(op="feed", b=version_frame(proto, pid=rng.randrange(256)), tag="hb_response")
             b.op(op="quiesce")
-        b.op(op="advance", to=300000 * k + rng.choice([1000, 150000, 299000]))
+        b.op(op="advance", to=base + 300000 * k + rng.choice([1000, 150000, 299000]))
         b.op(op="pause")
-        b.op(op="advance", to=300000 * (k + 4))
+        b.op(op="advance", to=base + 300000 * (k + 4))
         b.op(op="quiesce")
         b.shutdown()
-        return b.script, {"proto": proto, "seed": seed, "pattern": "blocked_writes", "after_beat": k}
+        return b.script, {"proto": proto, "seed": seed, "pattern": "blocked_writes", "after_beat": k, "session": session}
     lat = [125, 10000, 29875, 30250, 60000, None]
     n_beats = rng.randrange(3, 6)
     pattern = [rng.choice(lat) for _ in range(n_beats)]
     if rng.random() < 0.25:
         pattern = [None] * n_beats          # silent from the first heartbeat
-    times = sorted(300000 * k + d for k, d in enumerate(pattern) if d is not None)
+    times = sorted(base + 300000 * k + d for k, d in enumerate(pattern) if d is not None)
     for t in times:
         b.op(op="advance", to=t)
         b.op(op="feed", b=version_frame(proto, pid=rng.randrange(256)), tag="hb_response")
         b.op(op="quiesce")
-    b.op(op="advance", to=300000 * n_beats + rng.choice([0, 100000, 400000, 700000]))
+    b.op(op="advance", to=base + 300000 * n_beats + rng.choice([0, 100000, 400000, 700000]))
     b.op(op="quiesce")
     b.shutdown()
-    return b.script, {"proto": proto, "seed": seed, "pattern": pattern}
+    return b.script, {"proto": proto, "seed": seed, "pattern": pattern, "session": session}
 
 
 def status_frames(inst):
@@ -276,8 +306,18 @@ def mutate_state(inst, rng):
                                temp_raw=(600 + rng.randrange(200)) if st["sensor"] else st["temp_raw"])
 
 
-def add_subscribers(b, inst, rng, raising=False):
+def add_subscribers(b, inst, rng, raising=False, dynamic=False):
     subs = []
+    if dynamic:
+        # further subscribers on the same entities that change the subscriptions from inside their
+        # callback: a one-shot subscriber removing itself, a subscriber registering another one
+        for a in inst["acs"]:
+            if rng.random() < 0.6:
+                b.op(op="sub", who=f"D{a['n']}", kind=rng.choice(["ac", "ac_state"]), target=f"ac:{a['n']}",
+                     **{rng.choice(["once", "adds"]): True})
+        for z in inst["zones"]:
+            if rng.random() < 0.5:
+                b.op(op="sub", who=f"Y{z['n']}", kind="zone", target=f"zone:{z['n']}", **{rng.choice(["once", "adds"]): True})
     for a in inst["acs"]:
         if rng.random() < 0.7:
             w = f"A{a['n']}"
@@ -310,8 +350,25 @@ def c14_script(seed, proto):
         kind = rng.choice(["loss", "loss", "gap"] if proto == "at4" else ["loss"])
         if kind == "gap":           # AT4: silence of group status: a poll every 300 s for as long as it lasts
             gap = rng.choice([100000, 299875, 300125, 1000000])
-            t += gap
-            b.op(op="advance", to=t)
+            end = t + gap
+            # the silence concerns group status only: the console may go on publishing AC status
+            # (the unit is running), answering heartbeats, reporting timers
+            chatter = rng.random() < 0.6
+            while t < end:
+                t = min(end, t + rng.choice([30000, 60000, 120000, 150000, 290000]))
+                b.op(op="advance", to=t)
+                if chatter and t < end:
+                    what = rng.choice(["ac", "ac", "ac_same", "version", "timer"])
+                    if what == "ac":
+                        for a in inst["acs"]:
+                            a["status"] = dict(a["status"], temp_raw=650 + rng.randrange(150))
+                    if what in ("ac", "ac_same"):
+                        b.op(op="feed", b=status_frames(inst)[0], tag="ac_status_in_silence")
+                    elif what == "version":
+                        b.op(op="feed", b=version_frame(proto), tag="hb_response")
+                    else:
+                        b.op(op="feed", b=answers(inst)[4], tag="timer_status_in_silence")
+                    b.op(op="quiesce")
             b.op(op="feed", b=status_frames(inst)[1], tag="group_status")
             b.op(op="quiesce")
             # keep the watchdog quiet: answer the heartbeats that fell due
@@ -499,6 +556,30 @@ def history_frame(inst, rng, combos=None):
     return "version", C.from_console(p, 0x1F, C.version(*inst["version"]), pid=rng.randrange(256))
 
 
+def stalled_report(b, inst, rng):
+    """The console stops reading (send buffer full) and then reports a changed AC status, with or
+    without an error code, optionally while ten accepted commands are already waiting on the stalled
+    link.  One frame only: a client waiting on its own write cannot be expected to consume more.  The
+    object model must show that report during the stall and after it."""
+    p = inst["proto"]
+    b.op(op="quiesce")
+    b.op(op="pause")
+    if rng.random() < 0.5 and inst["zones"]:
+        for _ in range(10):
+            z = rng.choice(inst["zones"])
+            b.call(f"zone:{z['n']}", "set_power", [E("ZonePowerState", rng.choice(["ON", "OFF"]))])
+        b.op(op="step", k=2)
+    a = rng.choice(inst["acs"])
+    a["status"] = dict(ac_record(p, a["n"], rng), err=rng.choice([0, 1, 0xFFFE, 0x1234]))
+    pl = C.at4_ac_status([a["status"]]) if p == "at4" else C.at5_ac_status([a["status"]])
+    b.op(op="feed", b=C.from_console(p, 0x2D if p == "at4" else 0xC0, pl, pid=rng.randrange(256)), tag="ac_status_while_stalled")
+    b.op(op="quiesce")
+    b.op(op="snapshot", tag="during_stall")
+    b.op(op="resume")
+    b.op(op="quiesce")
+    b.op(op="snapshot", tag="after_stall")
+
+
 def c10_script(seed, proto, combos=None, subscribers=False, raising=False):
     rng = random.Random(seed)
     inst = installation(proto, rng, n_acs=rng.randrange(1, 4), n_zones=rng.randrange(1, 7))
@@ -506,11 +587,15 @@ def c10_script(seed, proto, combos=None, subscribers=False, raising=False):
     b.op(op="mark", tag="strict")
     b.preamble()
     b.init(inst)
-    subs = add_subscribers(b, inst, rng, raising=raising) if subscribers else []
+    dynamic = subscribers and rng.random() < 0.4
+    subs = add_subscribers(b, inst, rng, raising=raising, dynamic=dynamic) if subscribers else []
     n = rng.randrange(10, 40) if not combos else len(combos) + 5
     for _ in range(n):
         if combos is not None and not combos:
             break
+        if not subscribers and combos is None and rng.random() < 0.06:
+            stalled_report(b, inst, rng)
+            continue
         tag, fr = history_frame(inst, rng, combos)
         if rng.random() < 0.2:
             cut = rng.randrange(1, len(fr))
@@ -532,7 +617,7 @@ def c10_script(seed, proto, combos=None, subscribers=False, raising=False):
             else:
                 b.op(op="unsub", who=who, kind=kind, target=tgt)
     b.shutdown()
-    return b.script, {"proto": proto, "seed": seed, "subscribers": subscribers, "raising": raising}
+    return b.script, {"proto": proto, "seed": seed, "subscribers": subscribers, "raising": raising, "dynamic": dynamic}
 
 
 # ---------------------------------------------------------------------------------------------
